@@ -547,6 +547,22 @@ fn const_value_json<'tcx>(tcx: TyCtxt<'tcx>, val: mir::ConstValue, ty: Ty<'tcx>,
             }
             J::Null
         }
+        ty::Pat(inner, _) => const_value_json(tcx, val, *inner, depth + 1),
+        ty::Adt(def, _) if def.is_struct() || def.is_enum() => {
+            // plain-data structs (Duration { secs, nanos }, newtypes): {"adt": path, "variant": index, "fields": [...]}
+            let d = std::panic::catch_unwind(std::panic::AssertUnwindSafe(|| {
+                tcx.try_destructure_mir_constant_for_user_output(val, ty)
+            }));
+            if let Ok(Some(d)) = d {
+                let variant = d.variant.map(|v| v.as_u32() as i128).unwrap_or(0);
+                return J::Obj(vec![
+                    ("adt", J::s(tcx.def_path_str(def.did()))),
+                    ("variant", J::Int(variant)),
+                    ("fields", J::Arr(d.fields.iter().map(|(v, t)| const_value_json(tcx, *v, *t, depth + 1)).collect())),
+                ]);
+            }
+            J::Null
+        }
         _ => J::Null,
     }
 }
